@@ -54,7 +54,15 @@ def cases(draw, procs):
         elif stream == 'p':
             act = ['out', 'p', unit]
         t.setdefault('acts', {}).setdefault(ph, []).append(act)
-    opts = {'verbose': draw(st.sampled_from([0, 0, 1, 2])), 'buffer': draw(st.sampled_from([False, False, True]))}
+    opts = {'verbose': draw(st.sampled_from([0, 0, 1, 2])), 'buffer': draw(st.sampled_from([False, False, True])),
+            'repeat': draw(st.sampled_from([1, 1, 1, 2, 3]))}
+    if opts['repeat'] > 1 and draw(st.booleans()):
+        # a test that goes wrong in one iteration only (the trace says in which)
+        t = tests[draw(st.integers(0, len(tests) - 1))]
+        if t['k'] in ('pass', 'xfail'):
+            t['k'] = 'pass'
+            t.setdefault('acts', {}).setdefault(draw(st.sampled_from(['setUp', 'body', 'tearDown'])), []).append(
+                ['flaky', draw(st.integers(1, opts['repeat'])), draw(st.sampled_from(['AssertionError', 'ValueError']))])
     fault = {'kind': 'none'}
     if procs:
         opts['j'] = draw(st.sampled_from([None, 1, 2, 3]))
@@ -135,6 +143,8 @@ def went_wrong(case, spec, w, run):
             reasons.append('layer %s.%s raised' % (e['layer'], e['h']))
         elif e['ev'] == 'raise' and e.get('where', '').startswith('M:'):
             reasons.append('import of %s raised in a subprocess' % e['where'][2:])
+        elif e['ev'] == 'raise' and e.get('flaky'):
+            reasons.append('test raised in one iteration (%s)' % e['where'])
     for m in spec['modules']:
         if m.get('fail') or m.get('style') in ('bad_suite', 'raising_suite'):
             reasons.append('module %s cannot be imported' % m['name'])
@@ -183,6 +193,8 @@ def oracle(case, spec, run):
             labels.append('filter:' + k)
     if case['opts'].get('j'):
         labels.append('j%d' % case['opts']['j'])
+    if case['opts'].get('repeat', 1) > 1:
+        labels.append('repeat')
     viol = []
     if case['driver'] == 'inproc':
         viol += common.run_escaped(run, 'C02')
@@ -238,6 +250,8 @@ def oracle(case, spec, run):
                         pred = True
                     if e['ev'] == 'L' and e['ph'] == 'raise' and e.get('exc') != 'NIE' and e['h'] in ('setUp', 'tearDown'):
                         pred = True
+                    if e['ev'] == 'raise' and e.get('flaky'):
+                        pred = True
             if any(m.get('fail') or m.get('style') in ('bad_suite', 'raising_suite') for m in spec['modules']):
                 pred = True
             for c in kids.values():
@@ -266,7 +280,8 @@ def _classify(reasons):
     r = reasons[0]
     for key, cls in (('died', 'child-died'), ('never reported', 'child-no-report'), ('cut after', 'report-cut'),
                      ('could not be started', 'spawn-failure'), ('in a subprocess', 'import-failed-in-child'),
-                     ('cannot be imported', 'import-failure'), ('layer ', 'layer-hook'), ('test ', 'bad-test')):
+                     ('cannot be imported', 'import-failure'), ('layer ', 'layer-hook'),
+                     ('in one iteration', 'bad-test-in-one-iteration'), ('test ', 'bad-test')):
         if key in r:
             return cls
     return 'other'
